@@ -301,6 +301,9 @@ class Exec:
                 return s.new_list(st, a.ty, n1 + len(elems), lambda k: If(k < n1, Select(arr1, k), _chain([(n1 + i_, x_.t) for i_, x_ in enumerate(elems)], k)))
             n2 = s.llen(st.heap, b); arr2 = s.lelem(st.heap, b)
             return s.new_list(st, a.ty, n1 + n2, lambda k: If(k < n1, Select(arr1, k), Select(arr2, k - n1)))
+        if op is ast.Add and a.ty.kind == 'tuple' and b.ty.kind == 'list':
+            n2 = s.llen(st.heap, b); arr2 = s.lelem(st.heap, b); elems = list(a.t)
+            return s.new_list(st, b.ty, n2 + len(elems), lambda k: If(k < len(elems), _chain([(i_, x_.t) for i_, x_ in enumerate(elems)], k), Select(arr2, k - len(elems))))
         if a.ty.kind == 'list' or b.ty.kind == 'list': raise Unsupported('list concat')
         if a.ty == DEC or b.ty == DEC:
             f = {ast.Add: 'add', ast.Sub: 'sub', ast.Mult: 'mul', ast.Div: 'div'}.get(op)
@@ -500,7 +503,9 @@ class Exec:
             if n in s.spec.builtins: return s.spec.builtins[n](s, st, [s.ev(st, a) for a in e.args])
             raise Unsupported(f'call {n}')
         if isinstance(fn, ast.Attribute) and ast.unparse(fn) in s.spec.builtins:
-            return s.spec.builtins[ast.unparse(fn)](s, st, [s.ev(st, a) for a in e.args])
+            b_ = s.spec.builtins[ast.unparse(fn)]
+            if getattr(b_, 'wants_call', False): return b_(s, st, e)
+            return b_(s, st, [s.ev(st, a) for a in e.args])
         if isinstance(fn, ast.Call) and isinstance(fn.func, ast.Name) and fn.func.id == 'type' and len(fn.args) == 1:
             o = s.ev(st, fn.args[0])     # type(x)(...): classes under contract declare __init__ @final, so the static class decides
             if o.ty.kind == 'ref' and o.ty.arg in s.p.classes:
@@ -944,6 +949,14 @@ class Exec:
     def st_Pass(s, st, n, ctx): yield st
     def st_Expr(s, st, n, ctx):
         if isinstance(n.value, ast.Constant): yield st; return   # docstring
+        if isinstance(n.value, (ast.Yield, ast.YieldFrom)) and getattr(s.spec.contracts.get(ctx.q), 'at_yield', None):
+            cq_ = s.spec.contracts.get(ctx.q)
+            for act in cq_.at_yield:
+                if act[0].value == 'assert':
+                    g_ = s.spec_bool(st, act[1]); s.oblige_force(st, f'at-yield[{ast.unparse(act[1])[:120]}]', g_); st.pc.append(g_)
+                elif act[0].value == 'havoc':      # the block of the caller may change these heap fields
+                    s.havoc(st, s.resolve_mods(st, [a_.value for a_ in act[1:]]), 'yield')
+            yield st; return
         if isinstance(n.value, (ast.Yield, ast.YieldFrom)):
             v = s.ev(st, n.value.value); out = st.env['$out']
             ln = s.llen(st.heap, out); arr = s.lelem(st.heap, out)
@@ -994,6 +1007,11 @@ class Exec:
             if not is_false(simplify(c)): yield from s.run(a, case.body, ctx)
             nxt = rest.fork(); nxt.pc.append(Not(c)); rest = nxt
         yield rest          # no case matched: falls through
+    def st_With(s, st, n, ctx):
+        for item in n.items:
+            v = s.ev(st, item.context_expr)
+            if item.optional_vars is not None: s.assign(st, item.optional_vars, v)
+        yield from s.run(st, n.body, ctx)
     def st_AnnAssign(s, st, n, ctx):
         if n.value is None: yield st; return
         v = None
@@ -1313,6 +1331,8 @@ class Spec:
                         elif kind == 'ghost': c.ghost_exit.append(call.args)
                         elif kind == 'after_assign': c.after_assign.setdefault(call.args[0].value, []).append(call.args[1:])
                         elif kind == 'before_call': c.before_call.setdefault(call.args[0].value, []).append(call.args[1:])
+                        elif kind == 'at_yield':
+                            c.at_yield = getattr(c, 'at_yield', []); c.at_yield.append(call.args)
                         elif kind == 'types':
                             c.local_types = getattr(c, 'local_types', {})
                             for k in call.keywords: c.local_types[k.arg] = parse_ann(k.value, {})
